@@ -24,7 +24,8 @@ class SafeEnvironment(Environment):
     @property
     def params(self) -> Mapping[str, Any]:
         try:
-            params = self.env.params
+            #a copy because what we add below does not belong into the environment's own mapping
+            params = dict(self.env.params)
         except AttributeError:
             params = {}
 
@@ -250,7 +251,8 @@ class SafeLearner(Learner):
         try:
             params = self.learner.params
             params = params if not callable(params) else params()
-            params = params if isinstance(params,dict) else {'params':str(params)}
+            #a copy because what we add below does not belong into the learner's own mapping
+            params = dict(params) if isinstance(params,dict) else {'params':str(params)}
         except AttributeError:
             params = {}
 
@@ -425,7 +427,8 @@ class SafeEvaluator(Evaluator):
     @property
     def params(self):
         try:
-            params = self.evaluator.params
+            #a copy because what we add below does not belong into the evaluator's own mapping
+            params = dict(self.evaluator.params)
         except:
             params = {}
 
